@@ -136,10 +136,101 @@ func gen(t *rapid.T) Case {
 		c.ShortReads = rapid.SliceOfN(rapid.OneOf(rapid.IntRange(1, 3), rapid.IntRange(1, 70)), 1, 5).Draw(t, "readPattern")
 	}
 	c.EOFWithData = rapid.Bool().Draw(t, "eofWithData")
+	if rapid.IntRange(0, 9).Draw(t, "seekFails") == 0 {
+		c.SrcKind = "seek-error" // e.g. a pipe on stdin: has a Seek method, every call fails
+	}
+
+	// rare: lengths on the 32 KiB boundaries of io.Copy / transport buffers, and two chunks of the default 1 MiB size
+	switch rapid.IntRange(0, 159).Draw(t, "bigKind") {
+	case 0, 1, 2, 3:
+		c.Len = rapid.SampledFrom([]int{32767, 32768, 32769, 65536, 65537, 98305}).Draw(t, "bigLen")
+		c.HostChunk = 0
+		c.OptChunk = rapid.SampledFrom([]int{0, 8192, 16384, 32767, 32768, 32769, 65536}).Draw(t, "bigChunk")
+		ceff = c.OptChunk
+		if ceff == 0 {
+			ceff = defChunk
+		}
+		if c.Feat.ChunkMin > 0 {
+			c.Feat.ChunkMin = rapid.SampledFrom([]int{4096, 20000, 40000}).Draw(t, "bigChunkMin")
+			if c.Feat.ChunkMin > ceff {
+				ceff = c.Feat.ChunkMin
+			}
+		}
+		bm := rapid.SampledFrom([]int{0, -1, 1000, 32768, 65536}).Draw(t, "bigMax")
+		if c.HostMax != 0 {
+			c.HostMax = bm
+		} else {
+			c.OptMax = bm
+		}
+		if ceff > 98305 {
+			ceff = 98305
+		}
+	case 4:
+		c.HostChunk, c.OptChunk, c.Feat.ChunkMin = 0, 0, 0
+		c.Len = defChunk + rapid.SampledFrom([]int{-1, 0, 1, 4097}).Draw(t, "defChunkLen")
+		ceff = defChunk
+		if len(c.ShortReads) > 0 {
+			c.ShortReads = []int{4096, 70000}
+		}
+	}
+
+	// the source fails in the middle of the stream
+	if c.Len > 0 && rapid.IntRange(0, 15).Draw(t, "readErr") == 0 {
+		c.ReadErrAt = rapid.IntRange(1, c.Len).Draw(t, "readErrAt")
+	}
+	c.DescExtra = rapid.IntRange(0, 6).Draw(t, "descExtra") == 0
+
+	// context state
+	switch rapid.IntRange(0, 39).Draw(t, "ctxKind") {
+	case 0:
+		c.Ctx.Kind = "cancelled"
+	case 1:
+		c.Ctx.Kind = "deadline"
+	case 2, 3, 4:
+		c.Ctx = CtxSpec{Kind: "cancel-at-seq", N: rapid.OneOf(rapid.IntRange(0, 6), rapid.IntRange(0, 40)).Draw(t, "cancelAtSeq")}
+	case 5, 6:
+		c.Ctx = CtxSpec{Kind: "cancel-after-bytes", N: rapid.IntRange(0, c.Len).Draw(t, "cancelAfterBytes")}
+	}
+
+	// reference form, destination pre-state, repetition, entry point
+	c.Ref.Form = rapid.SampledFrom([]string{"", "", "", "tag", "digest", "tag+digest"}).Draw(t, "refForm")
+	if rapid.IntRange(0, 9).Draw(t, "pre") == 0 {
+		c.Pre = "same-blob"
+	}
+	c.Again = rapid.SampledFrom([]int{0, 0, 0, 0, 0, 0, 0, 1, 2, 2}).Draw(t, "again")
+	if c.Again == 2 {
+		c.Len2 = rapid.SampledFrom(cands).Draw(t, "len2")
+		if c.Len2 < 0 {
+			c.Len2 = 0
+		}
+		if c.Len2 > 420 {
+			c.Len2 = 420
+		}
+	}
+	entries := []string{"copy-layout", "copy-reg", "copy-repo"}
+	if k := rapid.IntRange(0, 19).Draw(t, "entry"); k < len(entries) {
+		c.Entry = entries[k]
+	}
 
 	if !isReg {
 		return c
 	}
+
+	// client options and host configuration
+	if rapid.IntRange(0, 6).Draw(t, "blobLimit") == 0 {
+		lim := rapid.SampledFrom([]int{1, ceff - 1, ceff, ceff + 1, c.Feat.ChunkMin - 1, c.Feat.ChunkMin, 2 * ceff, 1000, 100000}).Draw(t, "limit")
+		if lim < 1 {
+			lim = 1
+		}
+		c.OptLimit = lim
+		c.LimitFirst = rapid.Bool().Draw(t, "limitFirst")
+	}
+	c.Ref.Port = rapid.IntRange(0, 6).Draw(t, "port") == 0
+	c.Ref.Prefix = rapid.IntRange(0, 11).Draw(t, "prefix") == 0
+	c.Ref.NoTLS = rapid.IntRange(0, 6).Draw(t, "noTLS") == 0
+	c.Ref.Mirror = rapid.SampledFrom([]int{0, 0, 0, 0, 0, 0, 1, 2}).Draw(t, "mirror")
+	c.Ref.Auth = rapid.IntRange(0, 6).Draw(t, "auth") == 0
+	c.Feat.MountGrant = rapid.Bool().Draw(t, "mountGrant")
 
 	// registry behaviour
 	c.Feat.MountStatus = rapid.SampledFrom([]int{0, 0, 201, 201, 400, 403, 404, 405, 429}).Draw(t, "mountStatus")
@@ -158,6 +249,14 @@ func gen(t *rapid.T) Case {
 			}
 		}
 		c.Feat.PartialMode = rapid.IntRange(0, 1).Draw(t, "partialMode")
+		if c.Len > 2000 {
+			// keep the number of requests of a big blob within the request cap
+			for i, a := range c.Feat.Accept {
+				if a >= 0 && a < c.Len/40 {
+					c.Feat.Accept[i] = c.Len/40 + a
+				}
+			}
+		}
 	}
 	c.Feat.RefuseMono = rapid.IntRange(0, 9).Draw(t, "refuseMono") < 3
 	c.Feat.Early201 = rapid.IntRange(0, 9).Draw(t, "early201") < 2
